@@ -431,6 +431,12 @@ def m_generic_cmp(ctx):
         return [(None, scalar_cmp(ex, op, a, b))]
     if a == () and b == ():
         return [(None, z3.BoolVal(op in ('eq', 'le', 'ge')))]
+    if op in ('lt', 'le', 'gt', 'ge') and ex.resolve_fn(ctx.callee, len(ctx.args)) is None:
+        base = ctx.callee[:-len(op)]
+        tgt = ex.resolve_fn(base + 'partial_cmp', len(ctx.args)) or ex.resolve_fn(base.replace('PartialOrd', 'Ord') + 'cmp', len(ctx.args))
+        if tgt:
+            ex.push(st, tgt, ctx.args, ctx.dest, ctx.nxt, Cont('ordcmp', op=op))
+            return PUSHED
     if op == 'ne' and ex.resolve_fn(ctx.callee, len(ctx.args)) is None:
         tgt = ex.resolve_fn(ctx.callee[:-2] + 'eq', len(ctx.args))
         if tgt:
@@ -681,6 +687,20 @@ def _resume_take(ex, st, cont, rv, work):
     return 'value', old
 
 
+def _resume_ordcmp(ex, st, cont, rv, work):
+    op = cont.data['op']
+    o = rv
+    if isinstance(o, Obj) and (o.discr in ('Some', 'None') or 'Option' in (o.ty or '')):
+        if o.discr == 'None':
+            return 'value', z3.BoolVal(False)
+        if not isinstance(o.discr, str):
+            raise MirError('symbolic Option from partial_cmp')
+        o = o.fields[('Some', 0)]
+    d = ex.discr_value(st, o); z = z3.BitVecVal(0, 64)
+    return 'value', {'lt': d < z, 'le': d <= z, 'gt': d > z, 'ge': d >= z}[op]
+
+
+RESUMERS['ordcmp'] = _resume_ordcmp
 RESUMERS['take'] = _resume_take
 RESUMERS['not'] = lambda ex, st, cont, rv, work: ('value', z3.Not(rv))
 
@@ -853,7 +873,7 @@ def m_wrap_err(ctx):
     return on_variant(ex, st, o, {'Ok': lambda s2, o2: o2, 'Err': lambda s2, o2: enum('Result', 'Err', [as_report(payload(ex, s2, o2, 'Err'))])})
 
 
-@model(r'eyre::kind::|^Adhoc::|^Trait::|^Boxed::|::new_adhoc|format_err|^eyre::private|^astria_eyre::eyre::private|Report::msg|Report::new|^eyre::Report::|^astria_eyre::eyre::Report::|ErrReport::|^anyhow::|^astria_eyre::anyhow|eyre::ensure|::into_eyre|eyre_to_anyhow|anyhow_to_eyre')
+@model(r'eyre::error::<impl ErrReport>::|eyre::kind::|^Adhoc::|^Trait::|^Boxed::|::new_adhoc|format_err|^eyre::private|^astria_eyre::eyre::private|Report::msg|Report::new|^eyre::Report::|^astria_eyre::eyre::Report::|ErrReport::|^anyhow::|^astria_eyre::anyhow|eyre::ensure|::into_eyre|eyre_to_anyhow|anyhow_to_eyre')
 def m_report(ctx):
     if ctx.ret_ty.strip() in ('()',):
         return [(None, ())]
